@@ -32,7 +32,7 @@ ASSUMPTIONS = [
     "float divisions) and whenever a float coefficient occurs",
     "size caps are cost limits of sympy.simplify",
 ]
-REQUIRED_LABELS = {"mix:symbolic+numeric": 0.15, "dropped-blade": 0.01, "form:string": 0.1}
+REQUIRED_LABELS = {"mix:symbolic+numeric": 0.1, "dropped-blade": 0.01, "form:string": 0.05, "chain-of-operations": 0.1}
 
 
 def budget(tier):
@@ -89,8 +89,47 @@ def _cases(draw, tier):
     return {"cfg": cfg, "op": op, "a": a, "b": b, "valuations": vals, "graded": graded}
 
 
+PROGS = {
+    "a+b*c*b": lambda a, b, c: a + b * c * b,
+    "a+(b>>c)": lambda a, b, c: a + (b >> c),
+    "(a*b)*c-a": lambda a, b, c: (a * b) * c - a,
+    "sqrt(a*b)": lambda a, b, c: (a * b).sqrt(),
+    "norm(a*b)": lambda a, b, c: (a * b).norm(),
+    "a+b*b+c*c": lambda a, b, c: a + b * b + c * c,
+}
+TEMP_NAMES = ["x0", "x1", "x2", "x3", "x4", "x5", "_Dummy_1", "x"]
+
+
+@st.composite
+def _prog_cases(draw, tier):
+    """Chains of three or more operations on up to three symbolic operands (results fed straight back in), with symbol names
+    that look like the temporaries a common-subexpression pass invents (x0, x1, ...)."""
+    dmax = 3 if tier == "quick" else 4
+    cfg = draw(S.configs(1, dmax, custom=0.1, starts=(None, 0, 1), dweights=[1, 2, 2, 3, 3, 3] + [4] * (dmax >= 4)))
+    d = len(cfg["sig"])
+    prog = draw(st.sampled_from(sorted(PROGS)))
+    names = list(draw(st.permutations(TEMP_NAMES))) + list(draw(st.permutations(NAMES)))
+
+    def operand(classes, cap):
+        o = draw(S.operand(d, classes=classes, max_len=cap, min_len=1, zero_prob=0.0))
+        forms = [draw(st.sampled_from(["symbol", "symbol", "symbol", "num", "expr*2"])) for _ in o["keys"]]
+        return {"keys": o["keys"], "vals": o["vals"], "forms": forms, "names": [names.pop(0) for _ in o["keys"]]}
+    if prog in ("sqrt(a*b)", "norm(a*b)"):
+        # parallel blades: a*b is a scalar that is a PRODUCT of symbols
+        k = draw(st.integers(1, 2 ** d - 1))
+        a = {"keys": [k], "vals": [draw(S.fracs(nonzero=True))], "forms": ["symbol"], "names": [names.pop(0)]}
+        b = {"keys": [k], "vals": [draw(S.fracs(nonzero=True))], "forms": [draw(st.sampled_from(["symbol", "symbol", "expr*2"]))], "names": [names.pop(0)]}
+        c = None
+    else:
+        a = operand(["single", "sparse", "puregrade"], 3)
+        b = operand(["single", "sparse", "puregrade", "perm"], 2 if d >= 3 else 3)
+        c = operand(["single", "sparse", "puregrade"], 2 if d >= 3 else 3)
+    vals = [[draw(S.fracs(nonzero=True)) for _ in range(16)] for _ in range(3)]
+    return {"cfg": cfg, "op": "prog:" + prog, "a": a, "b": b, "c": c, "valuations": vals, "graded": False}
+
+
 def cases(tier):
-    return _cases(tier)
+    return st.one_of(_cases(tier), _cases(tier), _cases(tier), _prog_cases(tier))
 
 
 def _build(alg, opnd, valuation, syms):
@@ -132,7 +171,9 @@ def _build(alg, opnd, valuation, syms):
     return alg.multivector(keys=tuple(opnd["keys"]), values=svals), alg.multivector(keys=tuple(opnd["keys"]), values=nvals)
 
 
-def _apply(op, x, y):
+def _apply(op, x, y, z=None):
+    if op.startswith("prog:"):
+        return PROGS[op[5:]](x, y, z)
     return getattr(x, op)(y) if y is not None else getattr(x, op)()
 
 
@@ -140,8 +181,9 @@ def evaluate(case):
     import sympy
     cfg, op = case["cfg"], case["op"]
     alg = kd.build_algebra(cfg, graded=bool(case.get("graded")))
-    allnames = case["a"]["names"] + (case["b"]["names"] if case["b"] else [])
-    floaty = "float" in case["a"]["forms"] or (case["b"] is not None and "float" in case["b"]["forms"]) or op in ("norm", "normalized")
+    allnames = case["a"]["names"] + (case["b"]["names"] if case["b"] else []) + (case["c"]["names"] if case.get("c") else [])
+    floaty = "float" in case["a"]["forms"] or (case["b"] is not None and "float" in case["b"]["forms"]) or op in ("norm", "normalized") \
+        or op in ("prog:sqrt(a*b)", "prog:norm(a*b)")
     counters = {}
     rs = None
     dropped_any = False
@@ -155,8 +197,11 @@ def evaluate(case):
         ys = yn = None
         if case["b"] is not None:
             ys, yn = _build(alg, case["b"], valuation, syms)
+        zs = zn = None
+        if case.get("c") is not None:
+            zs, zn = _build(alg, case["c"], valuation, syms)
         try:
-            rn = kd.to_dict(_apply(op, xn, yn), op=op)
+            rn = kd.to_dict(_apply(op, xn, yn, zn), op=op)
         except ZeroDivisionError:
             counters["valuation-at-pole"] = counters.get("valuation-at-pole", 0) + 1
             continue
@@ -169,7 +214,7 @@ def evaluate(case):
             continue
         if rs is None:
             try:
-                rs = _apply(op, xs, ys)
+                rs = _apply(op, xs, ys, zs)
             except ZeroDivisionError:
                 # symbolic generation says the pattern is identically singular although this valuation is regular
                 raise Violation("symbolic-then-substitute", op, f"symbolic {op} raised ZeroDivisionError but numeric operands at "
@@ -231,9 +276,11 @@ def evaluate(case):
                     if not ok:
                         raise Violation("call-binds-by-name", op, f"calling {what} (same blades and symbols as r, different coefficients) "
                                         f"after calling r: {why}", observed=kd.show(called), expected=kd.show(exp2))
-    forms = case["a"]["forms"] + (case["b"]["forms"] if case["b"] else [])
+    forms = case["a"]["forms"] + (case["b"]["forms"] if case["b"] else []) + (case["c"]["forms"] if case.get("c") else [])
     mix = any(f in ("num", "float", "sympy-number") for f in forms) and any(f not in ("num", "float", "sympy-number") for f in forms)
     labels = [f"op:{op}", f"d:{len(cfg['sig'])}"]
+    if op.startswith("prog:"):
+        labels.append("chain-of-operations")
     if case.get("graded"):
         labels.append("opt:graded")
     if mix:
@@ -246,7 +293,8 @@ def evaluate(case):
         labels.append("all-valuations-at-poles")
     nontrivial = used > 0 and len(syms) >= 2 and nblades >= 2 and (dropped_any or mix)
     key = [cfg["sig"], cfg.get("start"), cfg.get("basis"), op, case["a"]["keys"], case["a"]["forms"], case["a"]["names"],
-           case["b"] and [case["b"]["keys"], case["b"]["forms"], case["b"]["names"]]]
+           case["b"] and [case["b"]["keys"], case["b"]["forms"], case["b"]["names"]],
+           case.get("c") and [case["c"]["keys"], case["c"]["forms"], case["c"]["names"]]]
     return Info(nontrivial, labels, key, counters)
 
 
